@@ -495,7 +495,10 @@ def exactsolve(A: LinearOperator, B: torch.Tensor,
     # M: (*BM, na, na)
     if E is None:
         Amatrix = A.fullmatrix()  # (*BA, na, na)
-        x = torch.linalg.solve(Amatrix, B)  # (*BAB, na, ncols)
+        # give B as many batch dimensions as A, otherwise torch.linalg.solve reads a B whose shape equals
+        # A.shape[:-1] as a batch of vectors
+        _, BBs = normalize_bcast_dims(Amatrix.shape[:-2], B.shape[:-2])
+        x = torch.linalg.solve(Amatrix, B.reshape(*BBs, *B.shape[-2:]))  # (*BAB, na, ncols)
     elif M is None:
         Amatrix = A.fullmatrix()
         x = _solve_ABE(Amatrix, B, E)
